@@ -49,7 +49,7 @@ def run(ctx):
                                                                 "FEAT": '"swrite","close"'}, tag="mc_seq", timeout=1800), "Mux SeqStep")
     ctx.log("mc SeqStep/NonceInv: %d distinct" % r.distinct)
     gens = [("seq_bfs", C(nc=2, ns=1, units=2, maxwrite=2, feat='"close"'), 30, 0, None, 2, {"allconc": not q}),
-            ("seq_sim", C(nc=3, ns=2, units=3, maxwrite=3, feat='"swrite","close","fault"'), 60, 1, 200 if q else 4000, 3, {})]
+            ("seq_sim", C(nc=3, ns=2, units=3, maxwrite=3, feat='"swrite","close","fault","readfrom"'), 60, 1, 200 if q else 4000, 3, {})]
     return muxprop.run_property(ctx, LEVEL, ASSUME, KEYS, [], gens, RULE, extra=extra)
 
 
